@@ -29,7 +29,7 @@ public:
     virtual void customEvent(QEvent *) { }
     virtual bool event(QEvent *) { return false; }
     QThread *thread() const { return m_affinity; }
-    void moveToThread(QThread *t) { m_affinity = t; }
+    inline void moveToThread(QThread *t);
     void deleteLater() { m_deleted = true; }       // the object is not freed in the model; QPointer sees it as gone
     template<typename... A> static bool connect(const QObject *, const char *, const QObject *, const char *, A...) { return true; }   // string-based: not modelled
     // typed connections used by OwnThreadHandler (defined after QThread / QCoreApplication)
@@ -136,8 +136,10 @@ public:
 struct QmPosted { QObject *receiver; QEvent *event; };
 inline QmPosted qm_evq[QM_EVQ_CAP];
 inline int qm_evq_n = 0;
+inline QObject *qm_evq_receiver = nullptr;
 inline int qm_events_discarded = 0;      // events dropped because the thread ended or no application object exists
 inline QCoreApplication *qm_app = nullptr;
+inline void QObject::moveToThread(QThread *t) { m_affinity = t; if (t && t != qm_main_qthread) qm_evq_receiver = this; }
 
 class QThread : public QObject
 {
@@ -184,6 +186,10 @@ public:
         (void)priority;
         QM_ASSERT(receiver != nullptr && !receiver->m_deleted, "postEvent to a destroyed object");
         QM_LIMIT(qm_evq_n < QM_EVQ_CAP);
+        // model restriction: one receiver object at a time (the worker); keeping it in its own variable keeps the pointer
+        // concrete for the solver when an event is delivered
+        // (the receiver is registered when it is moved to its thread, i.e. outside any symbolic branch)
+        QM_LIMIT(qm_evq_receiver == receiver);
         for (int i = 0; i < QM_EVQ_CAP; ++i) if (i == qm_evq_n) { qm_evq[i].receiver = receiver; qm_evq[i].event = event; }
         ++qm_evq_n;
         qm_yield(QM_Y_POST);
@@ -202,9 +208,9 @@ inline bool QThread::step()
     if (!m_running || m_finished) return false;
     if (m_quit) {
         // QEventLoop::exit(): the loop ends; events still queued for objects of this thread are never delivered
-        for (int i = 0; i < QM_EVQ_CAP; ++i) if (i < qm_evq_n && qm_evq[i].receiver->m_affinity == this) ++qm_events_discarded;
+        for (int i = 0; i < QM_EVQ_CAP; ++i) if (i < qm_evq_n && qm_evq_receiver && qm_evq_receiver->m_affinity == this) ++qm_events_discarded;
         int k = 0;
-        for (int i = 0; i < QM_EVQ_CAP; ++i) if (i < qm_evq_n && qm_evq[i].receiver->m_affinity != this) { if (k != i) qm_evq[k] = qm_evq[i]; ++k; }
+        for (int i = 0; i < QM_EVQ_CAP; ++i) if (i < qm_evq_n && !(qm_evq_receiver && qm_evq_receiver->m_affinity == this)) { if (k != i) qm_evq[k] = qm_evq[i]; ++k; }
         qm_evq_n = k;
         m_finished = true; m_running = false;
         int saved = qm_cur_tid; qm_cur_tid = m_tid;
@@ -213,10 +219,13 @@ inline bool QThread::step()
         return true;
     }
     int idx = -1;
-    for (int i = 0; i < QM_EVQ_CAP; ++i) if (idx < 0 && i < qm_evq_n && qm_evq[i].receiver->m_affinity == this) idx = i;
+    for (int i = 0; i < QM_EVQ_CAP; ++i) if (idx < 0 && i < qm_evq_n && qm_evq_receiver && qm_evq_receiver->m_affinity == this) idx = i;
     if (idx < 0) return false;
-    QObject *r = nullptr; QEvent *e = nullptr;
-    for (int i = 0; i < QM_EVQ_CAP; ++i) if (i == idx) { r = qm_evq[i].receiver; e = qm_evq[i].event; }
+    // the selected entry is read out with constant indices; the fall-back alternatives are valid dummy objects, never null:
+    // a symbolic pointer with a null / garbage alternative would make every virtual call on it fan out in the encoding
+    static QEvent dummyEvent(QEvent::None);
+    QObject *r = qm_evq_receiver; QEvent *e = &dummyEvent;
+    for (int i = 0; i < QM_EVQ_CAP; ++i) if (i == idx) { e = qm_evq[i].event; }
     for (int i = 0; i < QM_EVQ_CAP - 1; ++i) if (i >= idx && i < qm_evq_n - 1) qm_evq[i] = qm_evq[i + 1];
     --qm_evq_n;
     if (qm_app == nullptr) { ++qm_events_discarded; return true; }      // Qt: without a QCoreApplication, events in secondary threads are discarded
